@@ -254,6 +254,13 @@ func (t *Tables) DrawUnknown(rt *rapid.T, label string) string {
 			return s
 		}
 	}
+	if rapid.IntRange(0, 7).Draw(rt, label+"Long") == 0 {
+		// longer than any listed id (and than any listed id plus a suffix)
+		s := rapid.StringMatching(`[A-Za-z][A-Za-z0-9.-]{40,90}`).Draw(rt, label+"GenLong")
+		if t.IsUnknownID(s) {
+			return s
+		}
+	}
 	s := rapid.StringMatching(`[A-Za-z0-9.-]{1,12}`).Draw(rt, label+"Gen")
 	if t.IsUnknownID(s) {
 		return s
